@@ -197,7 +197,7 @@ class Case:
             elif c < 0.80 and self.globals:
                 g = r.choice(self.globals)
                 out.append({"k": "gset", "n": g["n"], "e": self.expr(g["ty"], env, 2)})
-            elif c < 0.84 and "match" in self.feat:
+            elif c < 0.84 and "match" in self.feat and d > 0:
                 m = self.match_stmt(env, d)
                 out.append(m if m else self.print_stmt(env))
             elif c < 0.87 and "lambda" in self.feat and d > 0:
@@ -303,12 +303,12 @@ class Case:
         for i, v in enumerate(variants):
             if use_wild and i == len(variants) - 1:
                 body_env = dict(env)
-                arms.append({"v": "_", "binds": [], "body": self.stmts(body_env, 1, 0)})
+                arms.append({"v": "_", "binds": [], "body": self.stmts(body_env, 1, d - 1)})
                 break
             binds = [self.fresh("b") for _ in v["tys"]]
             body_env = dict(env)
             for b, bt in zip(binds, v["tys"]): body_env[b] = bt
-            arms.append({"v": v["n"], "binds": binds, "body": self.stmts(body_env, r.randint(1, 2), 0)})
+            arms.append({"v": v["n"], "binds": binds, "body": self.stmts(body_env, r.randint(1, 2), d - 1)})
         return {"k": "match", "n": n, "ty": t, "arms": arms}
 
     def lambda_let(self, env):
